@@ -1,7 +1,7 @@
 (* Proofs about the upstream request model (C17). *)
 From Coq Require Import ZArith List Bool Lia ZifyBool.
 Import ListNotations.
-From MP Require Import Grid Grid_proofs Upstream.
+From MP Require Import Base Grid Grid_proofs Upstream.
 Local Open Scope Z_scope.
 
 (* ------------------------------------------------------------------ format choice *)
@@ -50,6 +50,11 @@ Qed.
 Section Inv.
   Variable T : srs -> srs -> bbox -> option bbox.
   Variable kn kd : Z.
+  Variable GI GC : Z -> bbox -> bool.
+
+  (* the bounds of a geometry contain whatever the geometry contains (extent is a superset of the coverage) *)
+  Definition geom_contains_sound (src : wms_source) : Prop :=
+    forall g cb cs b, w_geom src = Some g -> w_cov src = Some (cb, cs) -> GC g b = true -> bbox_contains cb b = true.
 
   (* the request bbox lies in the coverage extent: either its image in the coverage SRS is contained in the
      coverage bbox (bbox_contains, with its 1e-13 relative tolerance), or it lies inside the image of the
@@ -95,9 +100,9 @@ Section Inv.
   Qed.
 
   Lemma get_transformed_inv src q f r :
-    get_transformed T src q f = Request r ->
+    get_transformed T GC src q f = Request r ->
     r_fmt r = f /\ r_fwd r = dims_for_params (w_fwd src) (q_dims q) /\
-    preferred_src (w_pref src) (q_srs q) (w_srs src) = Some (r_srs r) /\ cov_ok src r.
+    preferred_src (w_pref src) (q_srs q) (w_srs src) = Some (r_srs r) /\ (geom_contains_sound src -> cov_ok src r).
   Proof.
     unfold get_transformed, cov_ok.
     destruct (preferred_src (w_pref src) (q_srs q) (w_srs src)) as [s|] eqn:Ep; [|discriminate].
@@ -109,14 +114,17 @@ Section Inv.
               else ((2 * q_h q * (x1 - x0) + (y1 - y0)) / (2 * (y1 - y0)), q_h q)) as [sw sh].
     destruct (w_cov src) as [[cb cs]|] eqn:Ec.
     - destruct (to_srs T s cs (x0, y0, x1, y1)) as [b|] eqn:Eb; [|discriminate].
-      destruct (negb (bbox_contains cb b)) eqn:En.
+      destruct (negb (cov_contains GC (w_geom src) cb b)) eqn:En.
       + intros H. apply sub_query_inv in H. cbn in H. destruct H as (H1 & H2 & H3 & (e & He & Hi) & _).
         repeat split; try assumption.
         * rewrite H3. reflexivity.
-        * right. exists e. rewrite H3. split; assumption.
+        * intros _. right. exists e. rewrite H3. split; assumption.
       + intros H. inversion H; subst; clear H. cbn. repeat split; try reflexivity.
-        left. exists b. cbn. split; [assumption|]. destruct (bbox_contains cb b); [reflexivity|discriminate].
-    - intros H. inversion H; subst; clear H. cbn. repeat split; reflexivity.
+        intros Hs. left. exists b. cbn. split; [assumption|].
+        unfold cov_contains in En. destruct (w_geom src) as [g|] eqn:Eg.
+        * apply (Hs g cb cs b Eg Ec). destruct (GC g b); [reflexivity|discriminate].
+        * destruct (bbox_contains cb b); [reflexivity|discriminate].
+    - intros H. inversion H; subst; clear H. cbn. repeat split; try reflexivity.
   Qed.
 
   (* where the SRS of the request comes from *)
@@ -128,17 +136,17 @@ Section Inv.
      preferred_src (w_pref src) (q_srs q) (w_srs src) = Some (r_srs r)).
 
   Lemma get_map_inner_inv src q r :
-    get_map_inner T src q = Request r ->
+    get_map_inner T GC src q = Request r ->
     r_fmt r = choose_format src q /\ r_fwd r = dims_for_params (w_fwd src) (q_dims q) /\
-    srs_origin src q r /\ cov_ok src r.
+    srs_origin src q r /\ (geom_contains_sound src -> cov_ok src r).
   Proof.
     unfold get_map_inner, srs_origin.
     destruct (w_srs src) as [|a0 rest] eqn:Es.
     - intros H. apply after_srs_inv in H. destruct H as (H1 & H2 & H3 & H4 & _).
-      repeat split; try assumption. left. split; [reflexivity|assumption].
+      repeat split; try assumption; [|intros _; exact H4]. left. split; [reflexivity|assumption].
     - destruct (find (fun s => srs_eq (q_srs q) s) (a0 :: rest)) as [s|] eqn:Ef.
       + destruct (code_eq (q_srs q) s) eqn:Ece; intros H; apply after_srs_inv in H;
-          destruct H as (H1 & H2 & H3 & H4 & _); repeat split; try assumption.
+          destruct H as (H1 & H2 & H3 & H4 & _); repeat split; try assumption; try (intros _; exact H4).
         * right. left. exists s. split; [reflexivity|]. left. split; [exact Ece|exact H3].
         * right. left. exists s. split; [reflexivity|]. right. exact H3.
       + intros H. apply get_transformed_inv in H. destruct H as (H1 & H2 & H3 & H4).
@@ -147,12 +155,12 @@ Section Inv.
   Qed.
 
   Lemma wms_request_inv src q r :
-    wms_get_map T kn kd src q = Request r ->
+    wms_get_map T kn kd GI GC src q = Request r ->
     q_ok q = true /\ rr_blocks kn kd (w_rr src) q = false /\
     r_fmt r = choose_format src q /\ r_fwd r = dims_for_params (w_fwd src) (q_dims q) /\
-    srs_origin src q r /\ cov_ok src r /\
+    srs_origin src q r /\ (geom_contains_sound src -> cov_ok src r) /\
     match w_cov src with
-    | Some (cb, cs) => exists b, to_srs T (q_srs q) cs (q_bbox q) = Some b /\ bbox_intersects cb b = true
+    | Some (cb, cs) => exists b, to_srs T (q_srs q) cs (q_bbox q) = Some b /\ cov_intersects GI (w_geom src) cb b = true
     | None => True
     end.
   Proof.
@@ -160,7 +168,7 @@ Section Inv.
     destruct (rr_blocks kn kd (w_rr src) q) eqn:Er; [discriminate|].
     destruct (w_cov src) as [[cb cs]|] eqn:Ec.
     - destruct (to_srs T (q_srs q) cs (q_bbox q)) as [b|] eqn:Et; [|discriminate].
-      destruct (bbox_intersects cb b) eqn:Ei; cbn [negb]; [|discriminate].
+      destruct (cov_intersects GI (w_geom src) cb b) eqn:Ei; cbn [negb]; [|discriminate].
       intros H. apply get_map_inner_inv in H. destruct H as (H1 & H2 & H3 & H4).
       repeat split; try assumption. exists b. split; [reflexivity|exact Ei].
     - intros H. apply get_map_inner_inv in H. destruct H as (H1 & H2 & H3 & H4).
@@ -206,7 +214,7 @@ Section Inv.
   (* the SRS object of the request is an element of supported_srs, or - only when the query already uses a
      configured code - the query's own object with that code *)
   Lemma request_srs_code_supported src q r :
-    wms_get_map T kn kd src q = Request r -> w_srs src <> [] ->
+    wms_get_map T kn kd GI GC src q = Request r -> w_srs src <> [] ->
     In (s_code (r_srs r)) (map s_code (w_srs src)).
   Proof.
     intros H Hne. apply wms_request_inv in H. destruct H as (_ & _ & _ & _ & Ho & _).
@@ -220,7 +228,7 @@ Section Inv.
 
   (* class level: the SRS of the request is equal (as _SRS.__eq__ sees it) to a configured one *)
   Lemma request_srs_equivalent src q r :
-    wms_get_map T kn kd src q = Request r -> w_srs src <> [] ->
+    wms_get_map T kn kd GI GC src q = Request r -> w_srs src <> [] ->
     exists s, In s (w_srs src) /\ srs_eq (r_srs r) s = true.
   Proof.
     intros H Hne. apply wms_request_inv in H. destruct H as (_ & _ & _ & _ & Ho & _).
@@ -233,8 +241,8 @@ Section Inv.
   (* ---------------------------------------------------------------- gates *)
   Lemma no_request_outside_coverage src q cb cs :
     w_cov src = Some (cb, cs) ->
-    (forall b, to_srs T (q_srs q) cs (q_bbox q) = Some b -> bbox_intersects cb b = false) ->
-    forall r, wms_get_map T kn kd src q <> Request r.
+    (forall b, to_srs T (q_srs q) cs (q_bbox q) = Some b -> cov_intersects GI (w_geom src) cb b = false) ->
+    forall r, wms_get_map T kn kd GI GC src q <> Request r.
   Proof.
     intros Hc Hb r H. apply wms_request_inv in H. destruct H as (_ & _ & _ & _ & _ & _ & Hi).
     rewrite Hc in Hi. destruct Hi as (b & Hb1 & Hb2). rewrite (Hb b Hb1) in Hb2. discriminate.
@@ -243,7 +251,7 @@ Section Inv.
   Lemma no_request_outside_res_range src q rr :
     w_rr src = Some rr ->
     rr_contains kn kd rr (q_bbox q) (q_w q) (q_h q) (s_latlong (q_srs q)) = false ->
-    forall r, wms_get_map T kn kd src q <> Request r.
+    forall r, wms_get_map T kn kd GI GC src q <> Request r.
   Proof.
     intros Hr Hc r H. apply wms_request_inv in H. destruct H as (_ & Hb & _).
     unfold rr_blocks in Hb. rewrite Hr, Hc in Hb. discriminate.
@@ -251,18 +259,20 @@ Section Inv.
 
   (* ---------------------------------------------------------------- bbox *)
   Lemma request_bbox_within_extent src q r cb cs :
-    wms_get_map T kn kd src q = Request r -> w_cov src = Some (cb, cs) -> within_extent cb cs r.
+    wms_get_map T kn kd GI GC src q = Request r -> w_cov src = Some (cb, cs) -> geom_contains_sound src ->
+    within_extent cb cs r.
   Proof.
-    intros H Hc. apply wms_request_inv in H. destruct H as (_ & _ & _ & _ & _ & Hk & _).
-    unfold cov_ok in Hk. rewrite Hc in Hk. exact Hk.
+    intros H Hc Hs. apply wms_request_inv in H. destruct H as (_ & _ & _ & _ & _ & Hk & _).
+    specialize (Hk Hs). unfold cov_ok in Hk. rewrite Hc in Hk. exact Hk.
   Qed.
 
   (* same SRS as the coverage: no transformation is involved *)
   Lemma request_bbox_within_extent_same_srs src q r cb cs :
-    wms_get_map T kn kd src q = Request r -> w_cov src = Some (cb, cs) -> srs_eq (r_srs r) cs = true ->
+    wms_get_map T kn kd GI GC src q = Request r -> w_cov src = Some (cb, cs) -> geom_contains_sound src ->
+    srs_eq (r_srs r) cs = true ->
     bbox_contains cb (r_bbox r) = true \/ inside cb (r_bbox r).
   Proof.
-    intros H Hc He. pose proof (request_bbox_within_extent _ _ _ _ _ H Hc) as Hw.
+    intros H Hc Hs He. pose proof (request_bbox_within_extent _ _ _ _ _ H Hc Hs) as Hw.
     assert (He' : srs_eq cs (r_srs r) = true) by (unfold srs_eq in *; lia).
     destruct Hw as [(b & Hb & Hcn)|(e & Hb & Hi)]; unfold to_srs in Hb.
     - rewrite He in Hb. inversion Hb; subst. left. exact Hcn.
@@ -527,6 +537,7 @@ Qed.
 Section TileInv.
   Variable T : srs -> srs -> bbox -> option bbox.
   Variable kn kd : Z.
+  Variable GI : Z -> bbox -> bool.
 
   Definition tile_go (g : grid) (q : query) : tile_outcome :=
     match affected_level g (q_bbox q) (q_w q) (q_h q) with
@@ -556,12 +567,12 @@ Section TileInv.
   Qed.
 
   Lemma tiled_request_inv ts q c :
-    tiled_get_map T kn kd ts q = TRequest c ->
+    tiled_get_map T kn kd GI ts q = TRequest c ->
     tile_go (t_grid ts) q = TRequest c /\
     (tw (t_grid ts) = q_w q /\ th (t_grid ts) = q_h q) /\ srs_eq (t_srs ts) (q_srs q) = true /\
     rr_blocks kn kd (t_rr ts) q = false /\
     match t_cov ts with
-    | Some (cb, cs) => exists b, to_srs T (q_srs q) cs (q_bbox q) = Some b /\ bbox_intersects cb b = true
+    | Some (cb, cs) => exists b, to_srs T (q_srs q) cs (q_bbox q) = Some b /\ cov_intersects GI (t_geom ts) cb b = true
     | None => True
     end.
   Proof.
@@ -572,13 +583,13 @@ Section TileInv.
     destruct (rr_blocks kn kd (t_rr ts) q) eqn:Er; [discriminate|].
     destruct (t_cov ts) as [[cb cs]|].
     - destruct (to_srs T (q_srs q) cs (q_bbox q)) as [b|] eqn:Et; [|discriminate].
-      destruct (bbox_intersects cb b) eqn:Ei; cbn [negb]; [|discriminate].
+      destruct (cov_intersects GI (t_geom ts) cb b) eqn:Ei; cbn [negb]; [|discriminate].
       intros H. repeat split; try assumption; try lia. exists b. split; [reflexivity|exact Ei].
     - intros H. repeat split; try assumption; lia.
   Qed.
 
   Lemma tile_request_in_grid ts q x y l :
-    tiled_get_map T kn kd ts q = TRequest (x, y, l) -> ress (t_grid ts) <> [] ->
+    tiled_get_map T kn kd GI ts q = TRequest (x, y, l) -> ress (t_grid ts) <> [] ->
     limit_tile (t_grid ts) x y l = Some (x, y, l).
   Proof.
     intros H Hne. apply tiled_request_inv in H. destruct H as (H & _).
@@ -587,8 +598,8 @@ Section TileInv.
 
   Lemma tile_no_request_outside_coverage ts q cb cs :
     t_cov ts = Some (cb, cs) ->
-    (forall b, to_srs T (q_srs q) cs (q_bbox q) = Some b -> bbox_intersects cb b = false) ->
-    forall c, tiled_get_map T kn kd ts q <> TRequest c.
+    (forall b, to_srs T (q_srs q) cs (q_bbox q) = Some b -> cov_intersects GI (t_geom ts) cb b = false) ->
+    forall c, tiled_get_map T kn kd GI ts q <> TRequest c.
   Proof.
     intros Hc Hb c H. apply tiled_request_inv in H. destruct H as (_ & _ & _ & _ & Hi).
     rewrite Hc in Hi. destruct Hi as (b & Hb1 & Hb2). rewrite (Hb b Hb1) in Hb2. discriminate.
@@ -597,7 +608,7 @@ Section TileInv.
   Lemma tile_no_request_outside_res_range ts q rr :
     t_rr ts = Some rr ->
     rr_contains kn kd rr (q_bbox q) (q_w q) (q_h q) (s_latlong (q_srs q)) = false ->
-    forall c, tiled_get_map T kn kd ts q <> TRequest c.
+    forall c, tiled_get_map T kn kd GI ts q <> TRequest c.
   Proof.
     intros Hr Hc c H. apply tiled_request_inv in H. destruct H as (_ & _ & _ & Hb & _).
     unfold rr_blocks in Hb. rewrite Hr, Hc in Hb. discriminate.
@@ -615,39 +626,40 @@ Module Examples.
   Definition gif_typed := mkFmt 52 53 true 52.
   (* toy transformation: identity on coordinates *)
   Definition Tid (a b : srs) (x : bbox) : option bbox := Some x.
+  Definition Gx (g : Z) (b : bbox) : bool := true.
 
   Definition src1 : wms_source :=
-    mkWms [s3857; s25832] [(s4326, [s3857])] [png] None (Some ((0, 0, 1000, 1000), s3857))
+    mkWms [s3857; s25832] [(s4326, [s3857])] [png] None (Some ((0, 0, 1000, 1000), s3857)) None
           (Some (mkRR (Some (100, 1)) (Some (1, 2)))) [20].
   Definition dims1 : list dim := [(30, 20, 40); (31, 21, 41)].
   (* inside the coverage, supported SRS: direct request, only dimension 20 is forwarded *)
   Definition q_direct := mkQuery (100, 100, 356, 356) 256 256 s3857 gif_typed dims1.
   Example ex_direct :
-    wms_get_map Tid 1 1 src1 q_direct = Request (mkReq (100, 100, 356, 356) 256 256 s3857 png [(30, 20, 40)]).
+    wms_get_map Tid 1 1 Gx Gx src1 q_direct = Request (mkReq (100, 100, 356, 356) 256 256 s3857 png [(30, 20, 40)]).
   Proof. vm_compute. reflexivity. Qed.
   (* alias code: the configured code is used *)
   Definition q_alias := mkQuery (100, 100, 356, 356) 256 256 s900913 png_typed dims1.
   Example ex_alias :
-    wms_get_map Tid 1 1 src1 q_alias = Request (mkReq (100, 100, 356, 356) 256 256 s3857 png_typed [(30, 20, 40)]).
+    wms_get_map Tid 1 1 Gx Gx src1 q_alias = Request (mkReq (100, 100, 356, 356) 256 256 s3857 png_typed [(30, 20, 40)]).
   Proof. vm_compute. reflexivity. Qed.
   (* overlapping the coverage: clipped sub query *)
   Definition q_sub := mkQuery (900, 900, 1156, 1156) 256 256 s3857 png_typed [].
   Example ex_sub :
-    wms_get_map Tid 1 1 src1 q_sub = Request (mkReq (900, 900, 1000, 1000) 100 100 s3857 png_typed []).
+    wms_get_map Tid 1 1 Gx Gx src1 q_sub = Request (mkReq (900, 900, 1000, 1000) 100 100 s3857 png_typed []).
   Proof. vm_compute. reflexivity. Qed.
   (* unsupported SRS: transformed to the preferred one, then clipped *)
   Definition q_trans := mkQuery (900, 900, 1156, 1156) 256 256 s4326 png_typed [].
   Example ex_trans :
-    wms_get_map Tid 1 1 src1 q_trans = Request (mkReq (900, 900, 1000, 1000) 100 100 s3857 png_typed []).
+    wms_get_map Tid 1 1 Gx Gx src1 q_trans = Request (mkReq (900, 900, 1000, 1000) 100 100 s3857 png_typed []).
   Proof. vm_compute. reflexivity. Qed.
   (* gates *)
-  Example ex_outside : wms_get_map Tid 1 1 src1 (mkQuery (1000, 0, 1256, 256) 256 256 s3857 png_typed []) = Blank.
+  Example ex_outside : wms_get_map Tid 1 1 Gx Gx src1 (mkQuery (1000, 0, 1256, 256) 256 256 s3857 png_typed []) = Blank.
   Proof. vm_compute. reflexivity. Qed.
-  Example ex_too_coarse : wms_get_map Tid 1 1 src1 (mkQuery (0, 0, 25600, 25600) 256 256 s3857 png_typed []) = Blank.
+  Example ex_too_coarse : wms_get_map Tid 1 1 Gx Gx src1 (mkQuery (0, 0, 25600, 25600) 256 256 s3857 png_typed []) = Blank.
   Proof. vm_compute. reflexivity. Qed.
   (* preferred_src_proj spells the SRS with an alias code (12): the supported code (10) is sent *)
   Example ex_pref_alias :
-    wms_get_map Tid 1 1 (mkWms [s3857] [(s4326, [s900913])] [] None None None [])
+    wms_get_map Tid 1 1 Gx Gx (mkWms [s3857] [(s4326, [s900913])] [] None None None None [])
                 (mkQuery (0, 0, 256, 256) 256 256 s4326 png []) =
     Request (mkReq (0, 0, 256, 256) 256 256 s3857 png []).
   Proof. vm_compute. reflexivity. Qed.
@@ -663,56 +675,143 @@ Module Examples.
 
   (* tile source: 10 px tiles, resolutions 10 and 5 *)
   Definition g1 : grid := mkGrid 0 0 1000 1000 10 10 [10; 5] false 23 20 4 1.
-  Definition ts1 : tile_source := mkTile g1 s3857 (Some ((0, 0, 500, 1000), s3857)) None.
+  Definition ts1 : tile_source := mkTile g1 s3857 (Some ((0, 0, 500, 1000), s3857)) None None.
   Example ex_tile :
-    tiled_get_map Tid 1 1 ts1 (mkQuery (200, 300, 300, 400) 10 10 s900913 png []) = TRequest (2, 3, 0).
+    tiled_get_map Tid 1 1 Gx ts1 (mkQuery (200, 300, 300, 400) 10 10 s900913 png []) = TRequest (2, 3, 0).
   Proof. vm_compute. reflexivity. Qed.
   Example ex_tile_outside_grid :
-    tiled_get_map Tid 1 1 (mkTile g1 s3857 None None) (mkQuery (950, 300, 1050, 400) 10 10 s3857 png []) = TErr 5.
+    tiled_get_map Tid 1 1 Gx (mkTile g1 s3857 None None None) (mkQuery (950, 300, 1050, 400) 10 10 s3857 png []) = TErr 5.
   Proof. vm_compute. reflexivity. Qed.
   (* the < 1 px strip of _calc_grids: the query intersects the grid bbox but its tile does not exist: no request *)
   Example ex_tile_none :
-    tiled_get_map Tid 1 1 (mkTile (mkGrid 0 0 1001 1000 10 10 [10; 5] false 23 20 4 1) s3857 None None)
+    tiled_get_map Tid 1 1 Gx (mkTile (mkGrid 0 0 1001 1000 10 10 [10; 5] false 23 20 4 1) s3857 None None None)
                   (mkQuery (1000, 300, 1100, 400) 10 10 s3857 png []) = TErr 6.
   Proof. vm_compute. reflexivity. Qed.
   Example ex_tile_blank :
-    tiled_get_map Tid 1 1 ts1 (mkQuery (500, 300, 600, 400) 10 10 s3857 png []) = TBlank.
+    tiled_get_map Tid 1 1 Gx ts1 (mkQuery (500, 300, 600, 400) 10 10 s3857 png []) = TBlank.
   Proof. vm_compute. reflexivity. Qed.
 End Examples.
 
 (* ------------------------------------------------------------------ statements about emitted requests *)
-Lemma request_format_supported T kn kd src q r :
-  wms_get_map T kn kd src q = Request r -> w_fmts src <> [] ->
+Lemma request_format_supported T kn kd GI GC src q r :
+  wms_get_map T kn kd GI GC src q = Request r -> w_fmts src <> [] ->
   exists e, In e (w_fmts src) /\ (r_fmt r = e \/ fmt_match (r_fmt r) e = true).
 Proof.
   intros H Hne. apply wms_request_inv in H. destruct H as (_ & _ & Hf & _). rewrite Hf.
   apply choose_format_supported. exact Hne.
 Qed.
 
-Lemma request_dims_configured T kn kd src q r d :
-  wms_get_map T kn kd src q = Request r -> In d (r_fwd r) -> In d (q_dims q) /\ In (d_lower d) (w_fwd src).
+Lemma request_dims_configured T kn kd GI GC src q r d :
+  wms_get_map T kn kd GI GC src q = Request r -> In d (r_fwd r) -> In d (q_dims q) /\ In (d_lower d) (w_fwd src).
 Proof.
   intros H Hin. apply wms_request_inv in H. destruct H as (_ & _ & _ & Hd & _). rewrite Hd in Hin.
   apply dims_for_params_in. exact Hin.
 Qed.
 
-Lemma request_url_srs T kn kd src q r tmpl fixed :
-  wms_get_map T kn kd src q = Request r -> ~ In K_SRS (map fst fixed) ->
+Lemma request_url_srs T kn kd GI GC src q r tmpl fixed :
+  wms_get_map T kn kd GI GC src q = Request r -> ~ In K_SRS (map fst fixed) ->
   pget K_SRS (url_params tmpl fixed r) = Some [VStr (s_code (r_srs r))].
 Proof. intros _ Hx. apply url_srs. exact Hx. Qed.
 
-Lemma request_url_format T kn kd src q r tmpl fixed :
-  wms_get_map T kn kd src q = Request r -> ~ In K_FORMAT (map fst fixed) ->
+Lemma request_url_format T kn kd GI GC src q r tmpl fixed :
+  wms_get_map T kn kd GI GC src q = Request r -> ~ In K_FORMAT (map fst fixed) ->
   pget K_FORMAT (url_params tmpl fixed r) = Some [VStr (f_mime (r_fmt r))].
 Proof. intros _ Hx. apply url_format. exact Hx. Qed.
 
-Lemma request_url_bbox T kn kd src q r tmpl fixed :
-  wms_get_map T kn kd src q = Request r -> ~ In K_BBOX (map fst fixed) ->
+Lemma request_url_bbox T kn kd GI GC src q r tmpl fixed :
+  wms_get_map T kn kd GI GC src q = Request r -> ~ In K_BBOX (map fst fixed) ->
   pget K_BBOX (url_params tmpl fixed r) = Some [VBox (r_bbox r)].
 Proof. intros _ Hx. apply url_bbox. exact Hx. Qed.
 
-Lemma request_url_size T kn kd src q r tmpl fixed :
-  wms_get_map T kn kd src q = Request r -> ~ In K_WIDTH (map fst fixed) -> ~ In K_HEIGHT (map fst fixed) ->
+Lemma request_url_size T kn kd GI GC src q r tmpl fixed :
+  wms_get_map T kn kd GI GC src q = Request r -> ~ In K_WIDTH (map fst fixed) -> ~ In K_HEIGHT (map fst fixed) ->
   pget K_WIDTH (url_params tmpl fixed r) = Some [VInt (r_w r)] /\
   pget K_HEIGHT (url_params tmpl fixed r) = Some [VInt (r_h r)].
 Proof. intros _ H1 H2. apply url_size; assumption. Qed.
+
+(* ------------------------------------------------------------------ combined sources (WMSSource.combined_layer) *)
+Lemma bbox_eqb_eq a b : bbox_eqb a b = true -> a = b.
+Proof.
+  destruct a as [[[a0 a1] a2] a3]. destruct b as [[[b0 b1] b2] b3]. unfold bbox_eqb. intros H.
+  assert (a0 = b0 /\ a1 = b1 /\ a2 = b2 /\ a3 = b3) as (-> & -> & -> & ->) by lia. reflexivity.
+Qed.
+
+Lemma list_eqb_dim_eq (la lb : list dim) : list_eqb dim_eqb la lb = true -> la = lb.
+Proof.
+  revert lb. induction la as [|x la IH]; intros [|y lb] H; try discriminate; [reflexivity|].
+  cbn in H. apply andb_prop in H. destruct H as [Hxy H]. f_equal; [|apply IH; exact H].
+  destruct x as [[x1 x2] x3]. destruct y as [[y1 y2] y3]. unfold dim_eqb, d_key, d_lower, d_val in Hxy. cbn in Hxy.
+  assert (x1 = y1 /\ x2 = y2 /\ x3 = y3) as (-> & -> & ->) by lia. reflexivity.
+Qed.
+
+Section Combined.
+  Variable T : srs -> srs -> bbox -> option bbox.
+  Variable kn kd : Z.
+  Variable GI GC : Z -> bbox -> bool.
+
+  Lemma compatible_inv ok a b q :
+    compatible kn kd ok a b q = true ->
+    rr_blocks kn kd (w_rr a) q = false /\ rr_blocks kn kd (w_rr b) q = false /\ cov_eqb a b = true /\
+    list_eqb dim_eqb (dims_for_params (w_fwd a) (q_dims q)) (dims_for_params (w_fwd b) (q_dims q)) = true.
+  Proof.
+    unfold compatible. intros H.
+    apply andb_prop in H. destruct H as [H H7]. apply andb_prop in H. destruct H as [H H6].
+    apply andb_prop in H. destruct H as [H H5]. apply andb_prop in H. destruct H as [H H4].
+    apply andb_prop in H. destruct H as [H H3]. apply andb_prop in H. destruct H as [H1 H2].
+    repeat split; try assumption.
+    - destruct (rr_blocks kn kd (w_rr a) q); [discriminate|reflexivity].
+    - destruct (rr_blocks kn kd (w_rr b) q); [discriminate|reflexivity].
+  Qed.
+
+  (* sources outside their resolution range are never combined: each is then asked (or not) on its own *)
+  Lemma compatible_res_ranges ok a b q :
+    compatible kn kd ok a b q = true ->
+    rr_blocks kn kd (w_rr a) q = false /\ rr_blocks kn kd (w_rr b) q = false.
+  Proof. intros H. apply compatible_inv in H. tauto. Qed.
+
+  (* only sources with the same coverage are combined: same bbox, equal SRS, same kind and geometry *)
+  Lemma compatible_coverage ok a b q cb cs :
+    compatible kn kd ok a b q = true -> w_cov a = Some (cb, cs) ->
+    exists cs', w_cov b = Some (cb, cs') /\ srs_eq cs cs' = true /\ w_geom a = w_geom b.
+  Proof.
+    intros H Ha. apply compatible_inv in H. destruct H as (_ & _ & Hc & _).
+    unfold cov_eqb in Hc. rewrite Ha in Hc. destruct (w_cov b) as [[cb' cs']|]; [|discriminate].
+    apply andb_prop in Hc. destruct Hc as [Hc Hg]. apply andb_prop in Hc. destruct Hc as [Es Eb].
+    apply bbox_eqb_eq in Eb. subst cb'. exists cs'. split; [reflexivity|]. split; [exact Es|].
+    destruct (w_geom a) as [g|]; destruct (w_geom b) as [g'|]; try discriminate; [|reflexivity].
+    f_equal. lia.
+  Qed.
+
+  (* the combined source keeps coverage, SRS list, formats and forwarded names of the first source, so every
+     statement about single sources applies to the combined request *)
+  Lemma combined_request_contract ok a b q r :
+    compatible kn kd ok a b q = true ->
+    wms_get_map T kn kd GI GC (combined a) q = Request r ->
+    (rr_blocks kn kd (w_rr a) q = false /\ rr_blocks kn kd (w_rr b) q = false) /\
+    (forall cb cs, w_cov a = Some (cb, cs) ->
+       (exists bb, to_srs T (q_srs q) cs (q_bbox q) = Some bb /\ cov_intersects GI (w_geom a) cb bb = true) /\
+       (exists cs', w_cov b = Some (cb, cs') /\ srs_eq cs cs' = true /\ w_geom a = w_geom b) /\
+       (geom_contains_sound GC a -> within_extent T cb cs r)) /\
+    (w_srs a <> [] -> In (s_code (r_srs r)) (map s_code (w_srs a))) /\
+    (w_fmts a <> [] -> exists e, In e (w_fmts a) /\ (r_fmt r = e \/ fmt_match (r_fmt r) e = true)) /\
+    (forall d, In d (r_fwd r) -> In d (q_dims q) /\ In (d_lower d) (w_fwd a) /\ In (d_lower d) (w_fwd b)).
+  Proof.
+    intros Hc H. split; [eapply compatible_res_ranges; exact Hc|]. split; [|split; [|split]].
+    - intros cb cs Ha. split; [|split].
+      + pose proof (wms_request_inv _ _ _ _ _ _ _ _ H) as (_ & _ & _ & _ & _ & _ & Hi).
+        cbn [combined w_cov w_geom] in Hi. rewrite Ha in Hi. exact Hi.
+      + eapply compatible_coverage; eassumption.
+      + intros Hs. eapply (request_bbox_within_extent T kn kd GI GC (combined a)); [exact H|exact Ha|exact Hs].
+    - intros Hne. apply (request_srs_code_supported T kn kd GI GC (combined a) q r H Hne).
+    - intros Hne. apply (request_format_supported T kn kd GI GC (combined a) q r H Hne).
+    - intros d Hd. pose proof (request_dims_configured T kn kd GI GC (combined a) q r d H Hd) as [H1 H2].
+      cbn [combined w_fwd] in H2. split; [exact H1|]. split; [exact H2|].
+      (* the forwarded sets of both sources agree on this query *)
+      apply compatible_inv in Hc. destruct Hc as (_ & _ & _ & He).
+      apply list_eqb_dim_eq in He.
+      assert (Hin : In d (dims_for_params (w_fwd a) (q_dims q))).
+      { unfold dims_for_params. apply filter_In. split; [exact H1|]. apply existsb_exists. exists (d_lower d).
+        split; [exact H2|]. apply Z.eqb_refl. }
+      rewrite He in Hin. apply dims_for_params_in in Hin. tauto.
+  Qed.
+End Combined.
